@@ -175,6 +175,8 @@ class Run:
                     self.dis.append((r, model, "C12_refs_resolve: hypotheses hold, a $ref of the real document does not resolve"))
                 if fm.get("terminates") == "true" and fi.get("present") != "true":
                     self.dis.append((r, model, "C12_objects_and_fields_present: an object has no definition in the real document"))
+            elif verb == "jsself":
+                self.bump("jsself " + model)
             elif verb == "jsvalid":
                 if model.startswith("bad-json"):
                     self.bump("jsvalid.number-outside-model")
